@@ -101,6 +101,52 @@ def _reexecute_pool(d):
     return tr, outcomes
 
 
+def _reexecute_threads(d):
+    """C08: run the stored thread schedule against the real sync pool again."""
+    import random
+
+    from . import pooltrace
+    from .check_threads import SCEN, ThreadRunner, with_warm
+    from .tsched import coarse_trace
+
+    sid = (d.get("scenario") or {}).get("id")
+    meta = d.get("meta") or {}
+    if sid not in SCEN or not isinstance(meta.get("decisions"), str):
+        return None
+    scen = SCEN[sid]
+    label = meta.get("label") or []
+    names = {x["name"][-1]: x["name"] for x in scen.calls}
+    stored = [names[ch] for ch in meta["decisions"] if ch in names]
+    it = iter(stored)
+
+    def choose(s, runnable):
+        for n in it:
+            if n in runnable:
+                return n
+        return runnable[0]
+
+    preempt = None
+    if label and label[0] == "lines":
+        rng = random.Random(label[2])
+        p = label[1]
+        # (the same generator drives the thread choice and the line pre-emption, as in the check)
+        choose = with_warm(scen, lambda sc, r, rng=rng: rng.choice(r))
+        preempt = lambda sc, rng=rng, p=p: rng.random() < p
+        run = scen.make(choose, preempt)
+    else:
+        run = scen.make(choose, None)
+    try:
+        run.run()
+        outcomes = {n: (o.get("result"), o.get("exc")) for n, o in run.outcome.items()}
+        tr = coarse_trace(run) if preempt is not None else pooltrace.Encoder(run, **scen.enc).encode()
+    finally:
+        run.finish()
+    if preempt is None:
+        r = ThreadRunner.__new__(ThreadRunner)
+        tr = r.cut_after_race(tr)[0]
+    return tr, outcomes
+
+
 def replay(prop, path):
     with open(path) as f:
         d = json.load(f)
@@ -125,8 +171,41 @@ def replay(prop, path):
             same = tr == stored
             print(f"  re-executed against /repo: outcomes {outcomes}; trace {'identical to' if same else 'differs from'} the stored one; {v2[0]} (matched prefix {v2[1]})")
             verdict = v2[0]
+        elif isinstance((d.get("meta") or {}).get("decisions"), str):
+            try:
+                again = _reexecute_threads(d)
+            except Exception as e:
+                print(f"  re-execution of the thread schedule failed ({type(e).__name__}: {e}); the stored trace decides")
+                again = None
+            if again is not None:
+                tr, outcomes = again
+                v2 = _judge("Pool", tr)
+                print(f"  re-executed the thread schedule against /repo: outcomes {outcomes}; trace {'identical to' if tr == stored else 'differs from'} the stored one; {v2[0]} (matched prefix {v2[1]})")
+                verdict = v2[0]
         else:
-            print("  (no re-execution: not an async scenario with a stored decision list)")
+            print("  (no re-execution: not a scenario with a stored decision list)")
+    if module == "Establish" and "case" in d and "meta" in d:
+        from . import establish
+
+        try:
+            m = d["meta"]
+            tr = establish.record(d["case"], m.get("outcomes", []), m.get("refuse") or None, m.get("mode", "sync"))
+            v2 = _judge("Establish", tr)
+            print(f"  re-executed the case against /repo ({m.get('mode')}): result {tr['result']}; log {'identical to' if tr['ops'] == d.get('ops') else 'differs from'} the stored one; {v2[0]} (matched prefix {v2[1]})")
+            verdict = v2[0]
+        except Exception as e:
+            print(f"  re-execution failed ({type(e).__name__}: {e}); the stored log decides")
+    if module == "ThreadCoarse":
+        try:
+            again = _reexecute_threads(d)
+        except Exception as e:
+            print(f"  re-execution of the thread schedule failed ({type(e).__name__}: {e}); the stored trace decides")
+            again = None
+        if again is not None:
+            tr, outcomes = again
+            v2 = _judge("ThreadCoarse", tr)
+            print(f"  re-executed the line-grain schedule against /repo: outcomes {outcomes}; trace {'identical to' if tr == stored else 'differs from'} the stored one; {v2[0]} (matched prefix {v2[1]})")
+            verdict = v2[0]
     if verdict.startswith("REJECT-BUT:"):
         from .checklib import Findings
 
